@@ -166,7 +166,7 @@ def trace_to_case(r):
         i += 1
     if root_evals is None:
         raise ValueError("no root")
-    term = f"replay ({cfg_term(spec)}) (init {root_evals}) [{'; '.join(events)}] 0"
+    term = f"replay_both ({cfg_term(spec)}) (init {root_evals}) [{'; '.join(events)}]"
     return term, expected, {"events": len(events)}
 
 
@@ -179,14 +179,14 @@ def _at_main(ev, i):
 
 
 HEADER = """From Coq Require Import List Bool Arith ZArith. Import ListNotations.
-From HV Require Import Ord Sprout Tree TreeCheck.
+From HV Require Import Ord Sprout Tree TreeCheck DriverCheck.
 """
 
 
 def split_digests(flat):
     out, cur = [], None
     for x in flat:
-        if x in (-1, -2, -3):
+        if x in (-1, -2, -3, -5):
             if cur is not None:
                 out.append(cur)
             cur = [x]
@@ -200,13 +200,25 @@ def split_digests(flat):
 def compare(expected, model_flat):
     """None if equal, else a description of the first difference"""
     got = split_digests(model_flat)
+    code = None
+    if got and got[-1][0] == -5:
+        code = got.pop()[1]
     for j, (a, b) in enumerate(zip(expected, got)):
         if a != b:
             what = "final state / accepted prefix" if a[0] == -3 else ("metaepoch boundary" if a[0] == -2 else "consult")
             return f"digest #{j} ({what}): implementation {a[:40]} model {b[:40]}"
     if len(expected) != len(got):
         return f"{len(expected)} digests recorded, the model produced {len(got)} (last model digest {got[-1][:12] if got else None})"
+    if code in (0, 2, 3):
+        return ("the run() translated from the current sources (Gen/GenDriver.v) " +
+                {0: "ends the recorded event stream in a different state than the machine", 2: "returns before the recorded run did",
+                 3: "cannot perform the recorded run (an effect in a different order / under a different condition)"}[code])
     return None
+
+
+def code_status(model_flat):
+    got = split_digests(model_flat)
+    return got[-1][1] if got and got[-1][0] == -5 else None
 
 
 def case_of(r):
